@@ -40,6 +40,7 @@ static var value_of(var T, int heap) {      /* a constructed value of type T */
   return NULL;
 }
 
+static var keep_all(var x) { return x; }
 static var mapf(var x) { return x; }
 
 static int usable(var o, var T) {
@@ -117,6 +118,10 @@ int main(int argc, char** argv) {
       else if (!strcmp(how, "copy"))   { var src = (T == String) ? sS : (T == Float) ? sF : sI; o = copy(src); wantT = type_of(src); reg = 1; }
       else if (!strcmp(how, "static")) { o = T; wantT = Type; wantcls = "static"; }
       else if (!strcmp(how, "aelem"))  { keep1 = new(Array, ET, MK(ET), MK(ET), MK(ET)); o = get(keep1, $I(1)); wantT = ET; wantcls = "data"; }
+      /* an Array of Ints that is ASSIGNED from a source it can only iterate (a Filter over an Array of the element type: no len, no
+         get): its slots are laid out for the new element type afterwards */
+      else if (!strcmp(how, "f_aelem")) { keep2 = new(Array, ET, MK(ET), MK(ET), MK(ET)); keep1 = new(Array, Int, $I(1), $I(2), $I(3), $I(4));
+                                          assign(keep1, filter(keep2, $(Function, keep_all))); o = get(keep1, $I(1)); wantT = ET; wantcls = "data"; }
       else if (!strcmp(how, "lelem"))  { keep1 = new(List, ET, MK(ET), MK(ET), MK(ET)); o = get(keep1, $I(1)); wantT = ET; wantcls = "data"; }
       else if (!strcmp(how, "tkey"))   { keep1 = new(Table, ET, Int, MK(ET), $I(1)); o = iter_init(keep1); wantT = ET; wantcls = "data"; }
       else if (!strcmp(how, "tval"))   { keep1 = new(Table, Int, ET, $I(1), MK(ET)); o = get(keep1, $I(1)); wantT = ET; wantcls = "data"; }
@@ -151,7 +156,7 @@ int main(int argc, char** argv) {
     ev_str("type", tt ? c_str(tt) : "?"); ev_str("wanttype", wantT ? c_str(wantT) : "?");
     ev_int("alloc", (o && !hc_exc[0]) ? (long long)(intptr_t)header(o)->alloc : 0); ev_str("wantcls", wantcls); ev_int("reg", reg);
     int us = (o && !hc_exc[0] && tt == wantT) ? usable(o, tt) : 0;
-    if (us && keep1 && (!strcmp(how, "aelem") || !strcmp(how, "lelem") || !strcmp(how, "it_array"))) {
+    if (us && keep1 && (!strcmp(how, "aelem") || !strcmp(how, "f_aelem") || !strcmp(how, "lelem") || !strcmp(how, "it_array"))) {
       /* writing every byte of this element (the middle one of three) must not touch its neighbours on either side */
       var nb = get(keep1, $I(0)), nc = get(keep1, $I(2)); size_t n = size(tt) <= 64 ? size(tt) : 64;
       unsigned char a[64], c[64], save[64]; memcpy(a, nb, n); memcpy(c, nc, n); memcpy(save, o, n);
